@@ -30,6 +30,26 @@ def strategy(tier):
                    st.fixed_dictionaries({'h': O.history('refdata', 2, 12, focus='refs')}))
 
 
+def lookup_key_column_retyped(hr, formulas):
+  """True if every given formula does a lookup keyed by a column whose type was changed earlier in the history
+  (root cause listed under C13: key-not-reconverted-after-key-column-type-change)."""
+  import re
+  if not formulas:
+    return False
+  retyped = set()
+  for ok, uas in hr.concrete():
+    if not ok:
+      continue
+    for u in uas:
+      if u[0] == 'ModifyColumn' and isinstance(u[3], dict) and 'type' in u[3]:
+        retyped.add((u[1], u[2]))
+  for f in formulas:
+    ms = re.findall(r'(\w+)\.lookup(?:Records|One)\(([^)]*)\)', f or '')
+    if not any((tname, key) in retyped for tname, args in ms for key in re.findall(r'([A-Za-z_]\w*)\s*=', args)):
+      return False
+  return True
+
+
 def lookup_key_has_error(doc, formulas):
   """True if every given formula is a lookup whose key column (in the looked-up table) currently holds an error."""
   import re
@@ -102,6 +122,19 @@ def run_case(case):
         out.fail('C05:stale:NameError-not-recomputed-after-table-added',
                  'cell %s.%s[%s] still holds NameError after a table it names was added (fresh engine: %r)' % (
                    t, c, r, vb), [[t2, c2, r2, a2, b2] for (t2, c2, r2, a2, b2) in real[:6]])
+        return True
+      if all(eqv.is_error_cell(x[3]) and eqv.is_error_cell(x[4]) and x[4][1:2] == ['NameError'] and x[3][1:2] != ['NameError']
+             for x in real):
+        out.fail('C05:stale:NameError-not-raised-after-table-removed',
+                 'cell %s.%s[%s] names a table that was removed: it keeps the error it had (%r) while a fresh engine raises '
+                 'NameError (formulas are not re-evaluated when the set of table names changes)' % (t, c, r, va),
+                 [[t2, c2, r2, a2, b2] for (t2, c2, r2, a2, b2) in real[:6]])
+        return True
+      if lookup_key_column_retyped(hr, [fm.get((x[0], x[1]), '') for x in real]):
+        out.fail('C05:stale:lookup-key-column-type-changed',
+                 'cell %s.%s[%s]: a lookup whose key column changed type keeps waiting on the old-type key and misses later '
+                 'changes of the rows it should match (incremental %r, fresh %r; formula %r)' % (t, c, r, va, vb, fm.get((t, c))),
+                 [[t2, c2, r2, a2, b2] for (t2, c2, r2, a2, b2) in real[:6]])
         return True
       allfeats = set()
       for x in real:
